@@ -22,7 +22,11 @@ RULE = ("stopping games by construction (random, every dead-successor pattern, s
 
 
 def judge(ctx, g, prune, o, stopping):
-    inp = {"game": gen.desc(g), "prune": prune}
+    inp = {"game": gen.desc(g), "prune": prune} if len(g["players"]) <= 60 else {"meta": g.get("_meta"), "prune": prune}
+    if o["outcome"] not in ("ok", "ValueError:nosolution", "Timeout"):
+        # neither a result nor the documented 'no solution': there is no reward to speak of
+        ctx.violation("no-result", inp, {"outcome": o["outcome"], "msg": o.get("msg")})
+        return True
     if o["outcome"] != "ok":
         return None
     S = Solved(g, prune, o)
